@@ -19,6 +19,8 @@
 // Excluded (reusex, class KF-C04-6/...): an EMPTY (zero-length, non-null) cell of an ascii / text / varchar / blob
 // column scanned into an unnamed `[]byte` destination: unmarshalVarchar's `append((*v)[:0], data...)` gives nil when
 // the destination was nil and an empty non-nil slice when it held a value (C04_cex_empty_cell_depends_on_history).
+// A UDT value with fewer fields than the type into a reused struct (KF-C04-7, repaired: the fields the value does not
+// carry are reset) is inside the specification: op reuse, class .../udt-short-value-resets-fields.
 package main
 
 import (
@@ -735,8 +737,11 @@ func cqlKnown(t *typeDesc) bool {
 // does not depend on what it held —
 //   - list / set into [n]T: the element type T never looks at the element it replaces (not an unnamed []byte of a
 //     text-family element type, not [n]T / a struct);
-//   - UDT into a struct: the value is null / empty (the struct is reset), or the value's fields write EVERY field of
-//     the struct and no written field is an empty text-family value into an unnamed []byte / a nested [n]T / struct.
+//   - UDT into a struct: the value is null / empty (the struct is reset), or EVERY field of the struct is named by a
+//     field of the type the loop reaches — written from the value, or (the value carries fewer fields than the type:
+//     repair of KF-C04-7) reset to its zero value — and no written field is an empty text-family value into an
+//     unnamed []byte / a nested [n]T / struct. A struct field no field of the type names (nothing writes it) stays
+//     model-vs-code.
 func compositeSensitive(s slot, it optBytes) bool {
 	if !cqlKnown(s.t) {
 		return true
@@ -764,9 +769,32 @@ func compositeSensitive(s slot, it optBytes) bool {
 		if s.g.Name == "ustruct" {
 			names = s.g.Names
 		}
-		written := make([]bool, len(s.g.Elems))
+		written := make([]bool, len(s.g.Elems)) // by a field of the value
+		zeroed := make([]bool, len(s.g.Elems))  // by the reset of the fields the value does not carry
+		lookup := func(name string) int {
+			for k, nm := range names {
+				if nm == name {
+					return k
+				}
+			}
+			return -1
+		}
 		data := it.b
 		for i := range t.sub {
+			if len(data) == 0 {
+				// the value carries fewer fields than the type: the struct fields the remaining fields name are reset
+				for _, nm := range t.fnames[i:] {
+					idx := lookup(string(nm))
+					if idx < 0 || idx >= len(s.g.Elems) {
+						continue
+					}
+					if written[idx] {
+						return true // the type names one struct field twice (C04Reuse.zeroMask: none)
+					}
+					zeroed[idx] = true
+				}
+				break
+			}
 			if len(data) < 4 {
 				break
 			}
@@ -780,13 +808,7 @@ func compositeSensitive(s slot, it optBytes) bool {
 				item = optBytes{b: data[:n]}
 				data = data[n:]
 			}
-			idx := -1
-			for k, nm := range names {
-				if nm == string(t.fnames[i]) {
-					idx = k
-					break
-				}
-			}
+			idx := lookup(string(t.fnames[i]))
 			if idx < 0 || idx >= len(s.g.Elems) {
 				continue
 			}
@@ -796,14 +818,39 @@ func compositeSensitive(s slot, it optBytes) bool {
 			}
 			written[idx] = true
 		}
-		for _, w := range written {
-			if !w {
+		for k := range written {
+			if !written[k] && !zeroed[k] {
 				return true
 			}
 		}
 		return false
 	}
 	return true
+}
+
+// udtShort: a non-empty UDT value that carries fewer fields than the type, into a struct (the inputs of KF-C04-7)
+func udtShort(s slot, it optBytes) bool {
+	if s.t.kind != 'u' || (s.g.Name != "struct" && s.g.Name != "ustruct") || it.null || len(it.b) == 0 {
+		return false
+	}
+	data := it.b
+	for range s.t.sub {
+		if len(data) == 0 {
+			return true
+		}
+		if len(data) < 4 {
+			return false
+		}
+		n := int(int32(uint32(data[0])<<24 | uint32(data[1])<<16 | uint32(data[2])<<8 | uint32(data[3])))
+		data = data[4:]
+		if n >= 0 {
+			if len(data) < n {
+				return false
+			}
+			data = data[n:]
+		}
+	}
+	return false
 }
 
 func reuseClass(api, init string, slots []slot, cols []colSpec, rows [][]cell) (op, class string) {
@@ -827,10 +874,14 @@ func reuseClass(api, init string, slots []slot, cols []colSpec, rows [][]cell) (
 			}
 		}
 	}
-	nav := false // a null after a value in some destination
+	nav := false   // a null after a value in some destination
+	short := false // a UDT value with fewer fields than the type into a struct (after an earlier row / in a used struct)
 	last := make([]bool, len(slots))
-	for _, row := range rows {
+	for ri, row := range rows {
 		for j, it := range rowItems(cols, row) {
+			if (ri > 0 || init == "D") && udtShort(slots[j], it) {
+				short = true
+			}
 			if !inplace(slots[j].g) && sensitive(slots[j], it) {
 				return "reusex", "KF-C04-6/empty-cell-into-reused-bytes"
 			}
@@ -843,6 +894,9 @@ func reuseClass(api, init string, slots []slot, cols []colSpec, rows [][]cell) (
 	class = "reuse/" + api + "/" + init
 	if comp {
 		class += "/composite-all-parts-written"
+	}
+	if short {
+		class += "/udt-short-value-resets-fields"
 	}
 	if nav {
 		class += "/null-after-value"
@@ -969,6 +1023,10 @@ func sysCases() []sysCase {
 			&valgen.GT{Name: "ustruct", Names: []string{"a", "b", "c"}, Elems: []*valgen.GT{gk("int"), gt("string"), gt("bytes")}},
 			&valgen.GT{Name: "ustruct", Names: []string{"c", "a"}, Elems: []*valgen.GT{gt("bytes"), ptr(gk("int"))}},
 			&valgen.GT{Name: "ustruct", Names: []string{"b", "zz"}, Elems: []*valgen.GT{gt("string"), gk("int")}},
+			// every field named by the type, no unnamed []byte: short values (KF-C04-7) are spec-backed
+			&valgen.GT{Name: "ustruct", Names: []string{"a", "b"}, Elems: []*valgen.GT{gk("int"), gt("string")}},
+			&valgen.GT{Name: "ustruct", Names: []string{"c", "b", "a"}, Elems: []*valgen.GT{ptr(gt("bytes")), ptr(gt("string")), gk("int64")}},
+			&valgen.GT{Name: "ustruct", Names: []string{"b", "c"}, Elems: []*valgen.GT{gt("nstring"), gt("nbytes")}},
 			gt("struct", gt("string"), gk("int")))},
 	}
 }
@@ -995,6 +1053,14 @@ func (g *gen) sysCell(proto int, t *typeDesc, k byte, i int) cell {
 			c.fields = append(c.fields, item(e))
 		}
 		return c
+	}
+	if t.kind == 'u' && k == 'V' && i%2 == 1 && len(t.sub) > 1 {
+		// a value written before the type's last fields were added: 1 .. n-1 fields (null / empty / a value each)
+		var w enc
+		for _, e := range t.sub[:1+g.r.Intn(len(t.sub)-1)] {
+			w.bytes(g.fieldFor(proto, e))
+		}
+		return cell{kind: 'b', b: w.b}
 	}
 	f := item(t)
 	if f.null {
